@@ -31,6 +31,7 @@ def plan(tier, seed):
     nr = 8 if q else 32
     specs += [dict(kind='rows', set='t32', seed=seed, shard=i, of=nr, per_row=120 if q else 8000) for i in range(nr)]
     specs += [dict(kind='rows', set='t16', seed=seed, shard=i, of=2, per_row=120 if q else 4000) for i in range(2)]
+    specs += [dict(kind='steps', set='t32', seed=seed, shard=i, n=4000 if q else 150000) for i in range(3 if q else 12)]
     nf = 16 if q else 64
     specs += [dict(kind='fields', set='t32', seed=seed, shard=i, of=nf, cap=2500 if q else 60000) for i in range(nf)]
     return specs
